@@ -525,13 +525,72 @@ theorem generated_length {tl ll : Nat} {tp lp : Char} {d : List (Str × Str)} {g
 
 /-! ### the argument check on `len_padding` (fix C16-c) -/
 
+theorem digitsTail_digit (acc : Nat) (c : Char) (rest : Str) (h : isAsciiDigit c = true) :
+    digitsTail acc (c :: rest) = digitsTail (acc * 10 + digitVal c) rest := by
+  have hu : c ≠ '_' := by intro e; subst e; revert h; decide
+  rw [digitsTail.eq_def]
+  split
+  · rename_i heq; cases heq
+  · rename_i heq; simp only [List.cons.injEq] at heq; exact absurd heq.1 hu
+  · rename_i heq; simp only [List.cons.injEq] at heq; obtain ⟨rfl, rfl⟩ := heq; simp [h]
+
+/-- **the probe is exact**: `int(pad + pad + '1') == 1` holds exactly when the padding is `'0'`
+or a character `int()` strips — a sign, an underscore, another digit, a letter fail it -/
+theorem lenPadOk_iff (lp : Char) : lenPadOk lp = true ↔ (lp = '0' ∨ isIntSpace lp = true) := by
+  unfold lenPadOk
+  constructor
+  · intro h
+    have h1 : pyInt [lp, lp, '1'] = some 1 := by simpa using h
+    cases hsp : isIntSpace lp with
+    | true => exact Or.inr rfl
+    | false =>
+      left
+      have hst : stripInt [lp, lp, '1'] = [lp, lp, '1'] :=
+        stripInt_id _ lp '1' rfl rfl hsp (by decide)
+      unfold pyInt at h1
+      rw [hst] at h1
+      by_cases hplus : lp = '+'
+      · subst hplus; revert h1; decide
+      by_cases hminus : lp = '-'
+      · subst hminus; revert h1; decide
+      have h2 : (digitsNat [lp, lp, '1']).map Int.ofNat = some 1 := by
+        split at h1
+        · rename_i r heq; simp only [List.cons.injEq] at heq; exact absurd heq.1 hplus
+        · rename_i r heq; simp only [List.cons.injEq] at heq; exact absurd heq.1 hminus
+        · exact h1
+      by_cases hd : isAsciiDigit lp = true
+      · have h3 : digitsNat [lp, lp, '1'] = some ((digitVal lp * 10 + digitVal lp) * 10 + 1) := by
+          have h1d : isAsciiDigit '1' = true := by decide
+          simp only [digitsNat, hd, if_true]
+          rw [digitsTail_digit _ _ _ hd, digitsTail_digit _ _ _ h1d]
+          rfl
+        rw [h3] at h2
+        simp only [Option.map_some, Option.some.injEq] at h2
+        have hv : digitVal lp = 0 := by
+          have h4 : ((((digitVal lp * 10 + digitVal lp) * 10 + 1 : Nat) : Int)) = 1 := h2
+          omega
+        simp only [isAsciiDigit, Bool.and_eq_true, decide_eq_true_eq] at hd
+        have hge : 48 ≤ lp.toNat := hd.1
+        have h48 : lp.toNat = 48 := by
+          unfold digitVal at hv
+          have : '0'.toNat = 48 := rfl
+          omega
+        apply Char.ext
+        apply UInt32.toNat_inj.mp
+        exact h48
+      · have : digitsNat [lp, lp, '1'] = none := by
+          simp [digitsNat, hd]
+        rw [this] at h2; cases h2
+  · rintro (h | h)
+    · subst h; decide
+    · have := pyInt_blank_padded 2 1 lp h
+      have hd : decimal 1 = ['1'] := by decide
+      rw [hd] at this
+      simpa using this
+
 /-- an accepted padding is `'0'` or a character `int()` strips -/
-theorem lenPadOk_reads {lp : Char} (h : lenPadOk lp = true) : lp = '0' ∨ isIntSpace lp = true := by
-  unfold lenPadOk at h
-  simp only [Bool.or_eq_true, decide_eq_true_eq] at h
-  rcases h with (((((h | h) | h) | h) | h) | h) | h
-  · exact Or.inl h
-  all_goals (subst h; exact Or.inr (by decide))
+theorem lenPadOk_reads {lp : Char} (h : lenPadOk lp = true) : lp = '0' ∨ isIntSpace lp = true :=
+  (lenPadOk_iff lp).mp h
 
 theorem generateTlv_accepted {lp : Char} (h : lenPadOk lp = true) (tl ll : Nat) (tp : Char)
     (d : List (Str × Str)) : generateTlv tl ll tp lp d = genEntries tl ll tp lp d := by
